@@ -17,6 +17,7 @@
 //!   ovrt   the same for OwnedValue::try_from(&v) -> Value::from(owned)
 //!   into   the same for try_clone + try_into_owned
 //!   std    T -> Value -> T round trips of std types: [{"ty", "ok"}], ok = 1 iff the original came back
+//!   unbuildable  well-formed values of the catalogue whose construction failed or panicked
 //! The harness only observes; spec/trace/LawsCheck.tla judges every table.
 use crate::model::{guarded, Rng};
 use serde_json::{json, Value as J};
@@ -196,7 +197,13 @@ fn family(f: usize, m: usize) -> Option<V> {
 const FAMILIES: usize = 12;
 
 fn family_size(f: usize) -> usize {
-    (0..).take_while(|m| family(f, *m).is_some()).count()
+    // a member whose construction panics still counts (the failure is observed when it is drawn)
+    (0..)
+        .take_while(|m| {
+            let m = *m;
+            guarded(move || family(f, m).is_some()).unwrap_or(true)
+        })
+        .count()
 }
 
 fn contains(v: &V, pred: &dyn Fn(&V) -> bool) -> bool {
@@ -334,7 +341,10 @@ pub fn cmd_laws(args: &[String]) {
     for id in 0..tables {
         // draw: 3-4 families, up to 3 members each (with repetition, so equal values meet), some wrapped
         let mut pool: Vec<V> = vec![];
-        while pool.len() < N {
+        let mut unbuildable: Vec<J> = vec![];
+        let mut attempts = 0;
+        while pool.len() < N && attempts < 200 {
+            attempts += 1;
             let f = rng.below(FAMILIES as u64) as usize;
             let wrapper = if rng.chance(1, 3) { Some(rng.next()) } else { None };
             let take = 2 + rng.below(3) as usize;
@@ -343,12 +353,20 @@ pub fn cmd_laws(args: &[String]) {
                     break;
                 }
                 let m = rng.below(sizes[f] as u64) as usize;
-                let v = family(f, m).unwrap();
-                // members of one family are wrapped the same way, so that they stay comparable
-                pool.push(match wrapper {
-                    Some(ws) => wrap(&mut Rng(ws), v),
-                    None => v,
+                // members of one family are wrapped the same way, so that they stay comparable.
+                // Building the value is itself a use of the code under test: a failure is recorded
+                // as an observation (law "constructible"), it does not stop the harness.
+                let built = guarded(move || {
+                    let v = family(f, m).unwrap();
+                    match wrapper {
+                        Some(ws) => wrap(&mut Rng(ws), v),
+                        None => v,
+                    }
                 });
+                match built {
+                    Ok(v) => pool.push(v),
+                    Err(msg) => unbuildable.push(json!({"family": f, "member": m, "wrapped": wrapper.is_some(), "msg": msg})),
+                }
             }
         }
         let n = pool.len();
@@ -391,6 +409,7 @@ pub fn cmd_laws(args: &[String]) {
             "ovrt": pool.iter().map(|v| preserved(v, OwnedValue::try_from(v).map(Value::from))).collect::<Vec<_>>(),
             "into": pool.iter().map(|v| preserved(v, v.try_clone().and_then(|c| c.try_into_owned()).map(Value::from))).collect::<Vec<_>>(),
             "std": std_round_trips(&mut rng),
+            "unbuildable": unbuildable,
         });
         writeln!(w, "{line}").unwrap();
     }
